@@ -91,6 +91,7 @@ type Walker struct {
 	// CheckInlineRule: a standalone nested container must not be inlinable, an inlined one must fit.
 	CheckInlineRule bool
 
+	digOverride    atree.DigesterBuilder  // when set: the digester of every map walked (small-scope cases)
 	Inline         map[atree.ValueID]bool // nested containers seen: value id -> stored inline?
 	wantLeaves     bool
 	RootLeafCounts []uint32 // element counts of the leaves of the first array walked with wantLeaves
@@ -504,6 +505,10 @@ type kvPair struct {
 }
 
 func (w *Walker) digesterFor(seed uint64, dig *DigProfile) atree.DigesterBuilder {
+	if w.digOverride != nil {
+		w.digOverride.SetSeed(seed, 0)
+		return w.digOverride
+	}
 	if dig != nil {
 		b := newAdvBuilder(*dig)
 		b.SetSeed(seed, 0)
